@@ -62,6 +62,8 @@ class System:
         self.saved = RWMOD.threading
         RWMOD.threading = S.FakeThreadingModule
         self.rw = RWMOD.RWLock()
+        S.adopt_locks(self.rw)          # mutexes made at import time (module globals, class-body defaults)
+        S.adopt_locks(RWMOD)
         self.locks = self._locks(self.rw)
         self.violations = []
         self.max_readers_in = 0
@@ -240,7 +242,7 @@ def dfs(ctx, label, R, W, rounds, hold=False, prefixes=None, lines=True, max_run
     """exhaustive schedule enumeration with visited-state pruning"""
     visited = set()
     stack = [tuple(p) for p in (prefixes or [()])][::-1]
-    runs = complete = bad_runs = 0
+    runs = complete = bad_runs = stuck = 0
     capped = False
     transitions = 0
     max_readers = 0
@@ -272,6 +274,16 @@ def dfs(ctx, label, R, W, rounds, hold=False, prefixes=None, lines=True, max_run
 
         outcome = execute(sysdef, chooser)
         runs += 1
+        if outcome == "stuck":
+            # a thread blocked on a primitive the scheduler does not own: not a verdict; give up on this search
+            # after a few of them (each costs the watchdog delay)
+            stuck += 1
+            ctx.event("%s:stuck-schedules" % label)
+            if stuck >= 5:
+                ctx.event("%s:abandoned-after-5-stuck-schedules" % label)
+                capped = True
+                break
+            continue
         ctx.case_sample(dict(case_base, schedule=list(choices), outcome=outcome,
                              threads=[t.name for t in sysdef.sched.threads]))
         transitions += len(choices)
@@ -334,8 +346,13 @@ def random_schedules(ctx, label, R, W, rounds, examples, programs=None):
             # bias: keep running the same thread for a while, then switch
             made.append(k)
             return k
+        if c.counters.get("%s:stuck-schedules" % label, 0) >= 3:
+            return          # the code under test blocks on primitives outside the scheduler: nothing to learn here
         c.ev()
         outcome = execute(sysdef, chooser)
+        if outcome == "stuck":
+            c.event("%s:stuck-schedules" % label)
+            return
         for kind, detail in sysdef.violations:
             c.fail("%s/%dR%dW" % (kind, R, W), dict(case_base, schedule=list(made)), repr(detail)[:600])
         if outcome == "done" and sysdef.parks:
